@@ -105,6 +105,7 @@ class CubicSpline1D(BaseInterp1D):
         # https://en.wikipedia.org/wiki/Spline_interpolation#Algorithm_to_find_the_interpolating_cubic_spline
         # get the k-vector (i.e. the gradient at every points)
         if self.y_is_given:
+            y = self.y
             ks = self.ks
         else:
             ks = torch.matmul(self.spline_mat_inv, y.unsqueeze(-1)).squeeze(-1)  # (*BY, nr)
